@@ -226,6 +226,9 @@ async def scripted(events: List[str], seed: int) -> Dict[str, Any]:
                         ch.write(bytes([int(parts[2])]))
                     else:
                         conn.send_debug('d%s' % parts[2])
+                elif parts[0] == 'xc':
+                    hub.auto = True             # what is written reaches the peer, as with a real socket, ...
+                    c.close()                   # ... and the application closes the connection
                 elif parts[0] == 'lc':
                     ft.offsets[id(c)] = ft.offsets.get(id(c), 0.0) + 200000
                 elif parts[0] == 'ls':
@@ -481,10 +484,38 @@ def oracle_scripts(ctx: Ctx, res: OracleResult, hist: Hist) -> None:
     res.nontrivial += len(set(tuple(o['events']) for o in outs if o.get('rekeys', (0, 0))[0] > 0))
 
 
+def oracle_close_during_exchange(ctx: Ctx, res: OracleResult, hist: Hist) -> None:
+    """channel data written just before `close()`: what arrives when no exchange is running must also arrive when
+    one is (re-keying is invisible to the application).  The control script is the same without the limit event."""
+    tail = ['dcs', 'dsc'] * 14
+    pairs = [(['sc:94:1', 'sc:94:2', 'xc'] + tail, ['lc', 'sc:94:1', 'sc:94:2', 'xc'] + tail),
+             (['sc:94:1', 'xc'] + tail, ['ls', 'ss:4:9', 'dsc', 'sc:94:1', 'xc'] + tail)]
+
+    async def run_all() -> List[Tuple[Dict[str, Any], Dict[str, Any]]]:
+        return [(await asyncio.wait_for(scripted(a, 0), 60), await asyncio.wait_for(scripted(b, 1), 60))
+                for a, b in pairs]
+    try:
+        outs = pair.run(run_all(), timeout=600)
+    except Exception as e:
+        res.failures.append(Failure('rekey-script-did-not-complete:' + type(e).__name__,
+                                    'close-during-exchange scripts did not complete', {'script': pairs[0][1]}))
+        return
+    for (a, b), (ctl, rk) in zip(pairs, outs):
+        res.evaluations += 1
+        hist.hit('close-during-exchange:%d-of-%d' % (len(rk.get('s_del', [])), len(ctl.get('s_del', []))))
+        if ctl.get('s_del') and rk.get('s_del') != ctl.get('s_del'):
+            res.failures.append(Failure('channel-data-dropped-by-close-during-exchange',
+                                        f'bytes written before close(): the server session received {ctl["s_del"]} when '
+                                        f'no exchange was running and {rk.get("s_del")} when one was (DISCONNECT '
+                                        f'overtakes the deferred packets); scripts {a[:4]} / {b[:6]}',
+                                        {'script': b, 'control': a, 'kind': 'close-during-exchange'}))
+
+
 def oracle(ctx: Ctx) -> OracleResult:
     res = OracleResult()
     hist = Hist()
     oracle_scripts(ctx, res, hist)
+    oracle_close_during_exchange(ctx, res, hist)
     rng = ctx.subrng('oracle')
     cases = []
     combos = ts.combos(rng, ctx.n(6, 40), reference_only=True)
@@ -561,6 +592,10 @@ def oracle(ctx: Ctx) -> OracleResult:
 
 def replay(ctx: Ctx, rep: Dict[str, Any]) -> List[Failure]:
     r = rep.get('replay', rep)
+    if r.get('kind') == 'close-during-exchange':
+        res = OracleResult()
+        oracle_close_during_exchange(ctx, res, Hist())
+        return res.failures
     if 'script' in r:
         o = pair.run(scripted(r['script'], 0))
         want_s = [int(e.split(':')[2]) for e in o['events'] if e.startswith('sc:94:')]
